@@ -12,6 +12,20 @@ checks = {
          "Real reader/parser of service runs on a simulated socket; every run compares the messages the server extracted (ids, serials, phones, bodies at delivery time, timeliness at quiescence) with the frames the simulated terminals sent, under seeded random cuts (bytewise, coalesced, inside escape pairs, before delimiters, >1023 B frames) and enumerated single/double cut positions of short streams. Sampled, not exhaustive beyond the enumerated cuts.",
          "trusts the AST rewriter, simnet's chunk model of TCP reads, the hand-written reference codec"),
 }
+checks.update({
+ "C05": ("exploration", "5/C05", "deterministic simulation: seeded packet orders/duplicates/interleavings x segmentation x schedules, oracle = reference reassembly table over the delivery history",
+         "Real sub-package reassembly on live simulated connections: transfers with permuted, duplicated and impossible-numbered packets, two concurrent message IDs, ordinary frames in between, every segmentation style; the oracle replays the environment's deliveries through a reference reassembly table and demands exactly one complete message per completely delivered transfer, byte-identical to the concatenation of the sent packet bodies, not before the last missing packet and not later than the next quiescent point, plus exactly one correct reply. Sampled.",
+         "trusts rewriter, simnet, reference codec; totals up to 12 (quick) / 64 (thorough)"),
+ "C06": ("exploration", "5/C06", "deterministic simulation + sequential reference server model over the recorded history",
+         "Whole conversations (every default 0x0xxx/0x1xxx ID, unsupported IDs, both header versions, sub-packaged messages, 1-4 concurrent connections, all segmentations and schedules) against a reference model: reply kind per message, echo fields, authentication result against the code the server issued in this run, addressing, reply order, platform serials 0,1,2,... over every frame written incl. a >65536-reply wrap-around run, read/write callbacks exactly once with the bytes on the socket. Sampled.",
+         "reference reply table transcribed from the property text/standard; body of 0x1003/0x1212 acknowledgements not inspected"),
+ "C09": ("exploration", "5/C09", "deterministic simulation: reader/writer interleavings (writer-starving strategies) with retained-message snapshots",
+         "Every message handed to a callback is retained with a deep copy; after every later callback and at the end of the run (after later reads, after the connection closed) the retained message must equal its copy; replies and reassembled bodies must be those of their own message. Schedules let the reader run ahead of the writer up to the channel capacities.",
+         "plain memory orderings between two yield points are C18's subject, not visible here"),
+ "C14": ("exploration", "5/C14", "deterministic simulation on the synctest fake clock + reference reassembly/timer model",
+         "Transfers with plan-chosen missing sets, idle gaps just below/above 5 s and 60 s on the simulated clock, repeated re-request rounds, partial resupply, two concurrent IDs; every 0x8003 the server writes is parsed by the reference codec and must be due (idle > 5 s at inbound data, at most once per 5 s), name the first packet's serial and exactly the missing numbers ascending; expired transfers never complete, resupplied ones do. Sampled; N up to 24 (quick) / 255 (thorough).",
+         "exact 5 s / 60 s boundary instants are avoided by the generator (property does not say which way they fall)"),
+})
 pending = {}
 all_ids = ["C%02d" % i for i in range(1, 21)]
 man = {
